@@ -64,6 +64,8 @@ class System:
             return self.syms[e[1]]
         if k == 'mine':
             return z3.If(st['lock'][e[1]] == BVV(tid + 1), BVV(1), BVV(0))
+        if k == 'semzero':
+            return z3.If(st['sem'][e[1]] == BVV(0), BVV(1), BVV(0))
         if k == 'not':
             return z3.If(self.tr(e[1], loc, st, tid), BVV(0), BVV(1))
         if k in ('and', 'or'):
